@@ -492,7 +492,7 @@ def judge(ctx, records, usemin, reduce, label):
         line = json.dumps(o, separators=(",", ":"))
         lines.append((len(line) * (1 + len(r["par"]) / 12.0), line))
     total = sum(w for w, _ in lines)
-    nchunks = max(1, min(ctx.pick(8, 40), int(total // 400000) + 1))
+    nchunks = max(1, min(ctx.pick(5, 40), int(total // 400000) + 1))
     target = total / nchunks
     paths, cur, vol = [], [], 0.0
 
@@ -628,9 +628,9 @@ def run(ctx):
     mcs = []
     if ctx.quick:
         mcs.append(("mc_lcas", dict(n=4, l=3, mode="lcas", usemin=usemin, reduce=reduce, maxd=1, inv=INV_LCAS + exact)))
-        mcs.append(("mc_ff", dict(n=4, l=3, mode="ff", usemin=usemin, reduce=reduce, inv=INV_FF + exact)))
+        mcs.append(("mc_ff", dict(n=4, l=3, mode="ff", usemin=usemin, reduce=reduce, tiebreak="asc", inv=INV_FF + exact)))
         mcs.append(("mc_walk", dict(n=4, l=3, mode="walk", usemin=usemin, reduce=reduce, maxd=1, maxextra=1, inv=INV_WALK)))
-        mcs.append(("mc_repaired", dict(n=4, l=3, mode="lcas", usemin=False, reduce=True, maxd=1, inv=INV_LCAS + rep)))
+        mcs.append(("mc_repaired", dict(n=4, l=3, mode="lcas", usemin=False, reduce=True, maxd=1, tiebreak="desc", inv=INV_LCAS + rep)))
     else:
         mcs.append(("mc_repaired5", dict(n=5, l=2, mode="lcas", usemin=False, reduce=True, maxd=1, tiebreak="asc", inv=INV_LCAS + rep)))
         mcs.append(("mc_lcas5", dict(n=5, l=2, mode="lcas", usemin=usemin, reduce=reduce, maxd=1, tiebreak="asc", inv=INV_LCAS + exact)))
@@ -652,11 +652,11 @@ def run(ctx):
     try:
         r = jobs.get("cases4")
         ctx.add_tlc("GraphCases N=4: all 64 canonical DAGs x all 75 weak orders of timestamps", r)
-        records += replay_dump(ctx, pool, 4, os.path.join(d, "cases4"), "N=4 exhaustive", ctx.pick(25, 240))
+        records += replay_dump(ctx, pool, 4, os.path.join(d, "cases4"), "N=4 exhaustive", ctx.pick(22, 240))
         r = jobs.get("cases5")
         ctx.add_tlc("GraphCases N=5: all 1024 canonical DAGs x " + ("3 sampled" if ctx.quick else "all 541") + " weak orders", r)
         records += replay_dump(ctx, pool, 5, os.path.join(d, "cases5"), "N=5 " + ("sampled clocks" if ctx.quick else "exhaustive"),
-                               ctx.pick(12, 420))
+                               ctx.pick(10, 420))
         os.remove(os.path.join(d, "cases5.dump"))
         if not ctx.quick:
             r = jobs.get("cases6")
